@@ -188,7 +188,10 @@ ViewNormal(t) == [t EXCEPT !.buf.lines = View(t.buf), !.buf.trim = FALSE, !.othe
 CtxLeaves == {"col", "row", "pw", "pen", "origin", "autowrap", "saved", "asaved"}
 FnBlame(pre, fn, leaves) ==
   LET f == fn.f IN
-  IF f \in {"Lf", "Nel", "Ri"} THEN (IF IsScrollingStep(pre, fn) THEN {"C06"} ELSE {"C05"})
+  IF f \in {"Lf", "Nel", "Ri"}
+  THEN (IF IsScrollingStep(pre, fn) THEN {"C06"}
+        ELSE IF "buf.lines" \in leaves THEN {"C05", "C06"}       \* it scrolled (or wrote) where it must only move
+        ELSE {"C05"})
   ELSE IF f \in {"Decset", "Decrst"} /\ \E i \in 1..Len(fn.a) : fn.a[i] = 1049
        THEN (IF leaves \cap CtxLeaves # {} THEN {"C16", "C17"} ELSE {}) \cup (IF leaves \ CtxLeaves # {} THEN {"C16"} ELSE {})
             \cup UNION {DecModeOwner(fn.a[i]) : i \in {j \in 1..Len(fn.a) : fn.a[j] # 1049}}
